@@ -332,3 +332,9 @@ CHECKS['C14']['text'] += (
     " T2 on the STAGE-2 engine model, first half (Inv/Horizon2.v on Clock2.v + HorizonCount2.v): engine_horizon2 / Hzn2_means - inside Clock2.scope the loop of simulate_until_max_time executes only events due at the clock and dated before T, in "
     "non-decreasing order; when it stops on its test NOTHING of any of the five event kinds is scheduled before T (arrival dates, every node's next date, server end dates, shift and slot dates, waiting customers' reneging and class-change dates); conservation at return; "
     "hzn2_b (sound) holds on every in-scope real snapshot visited.")
+CHECKS['C17']['text'] += (
+    " T2 on the (stage-1) ENGINE MODEL (Inv/TrackerInc.v, 1 970 lines; Properties/C17_engine.v): run_many_trackers / run_many_class_matrix - for SystemPopulation, NodePopulation, NodePopulationSubset, GroupedNodePopulation, NaiveBlocking and NodeClassMatrix: "
+    "the tracker's own incremental updates (change_state_accept / block / release / classchange, written as Python writes them), folded over the calls the engine makes during any number of events, give exactly the TRUE state computed from the configuration "
+    "(who queues where, class served in, blocked flag), for every configuration, every state satisfying the invariant TInv (Blocking.Who + an unblocked queued customer has previous_class = customer_class) and every oracle; never_negative; "
+    "sub_dup_refuted / grp_dup_refuted: a node listed twice in observed_nodes / in two groups breaks it (a user-parameter issue). MatrixBlocking is not covered. K3: the ghost call lists of the model (TrackerInc.calls_event_step, dispatch 41) are compared, event by event, "
+    "with the calls the real engine makes to its tracker (logged by a behaviour-free subclass), and tinvc_b is evaluated on the same real snapshots.")
